@@ -147,8 +147,8 @@ impl Monitor for C14 {
     }
     fn plan(&self, tier: &Tier, seed: u64) -> Vec<Chunk> {
         let (ns, nr) = match tier {
-            Tier::Quick => (8_000, 6_000),
-            Tier::Thorough => (80_000, 40_000),
+            Tier::Quick => (16_000, 12_000),
+            Tier::Thorough => (100_000, 300_000),
         };
         let mut v = split_chunks("stress", seed_offset(seed, "C14s", 100_000), ns, 100_000, 100);
         v.extend(split_chunks("rand", seed_offset(seed, "C14r", 300_000), nr, 300_000, 100));
